@@ -2,13 +2,13 @@
 """copy confirmed seeded changes from the sub-agents' scratch worktrees into /verif/seeded/<id>/"""
 import json, os, re, shutil, sys, glob
 detect = json.load(open('/tmp/seeded_detect.json')) if os.path.exists('/tmp/seeded_detect.json') else {}
-for d in sorted(glob.glob('/tmp/wt-C*/SEEDED/*') + glob.glob('/tmp/wt2-C*/SEEDED/*') + glob.glob('/tmp/wt3-C*/SEEDED/*') + glob.glob('/tmp/wt4-C*/SEEDED/*') + glob.glob('/tmp/wt5-C*/SEEDED/*')):
-    rnd = 5 if '/wt5-' in d else 4 if '/wt4-' in d else (3 if '/wt3-' in d else (2 if '/wt2-' in d else 1))
+for d in sorted(glob.glob('/tmp/wt-C*/SEEDED/*') + glob.glob('/tmp/wt2-C*/SEEDED/*') + glob.glob('/tmp/wt3-C*/SEEDED/*') + glob.glob('/tmp/wt4-C*/SEEDED/*') + glob.glob('/tmp/wt5-C*/SEEDED/*') + glob.glob('/tmp/wt6-C*/SEEDED/*')):
+    rnd = 6 if '/wt6-' in d else 5 if '/wt5-' in d else 4 if '/wt4-' in d else (3 if '/wt3-' in d else (2 if '/wt2-' in d else 1))
     r2 = rnd > 1
-    prop = re.search(r'wt[2345]?-(C\d+)', d).group(1); v = os.path.basename(d)
-    sid = '%s-%s%s' % (prop, {1: '', 2: 'r2', 3: 'r3', 4: 'r4', 5: 'r5'}[rnd], v)
+    prop = re.search(r'wt[23456]?-(C\d+)', d).group(1); v = os.path.basename(d)
+    sid = '%s-%s%s' % (prop, {1: '', 2: 'r2', 3: 'r3', 4: 'r4', 5: 'r5', 6: 'r6'}[rnd], v)
     conf = ''
-    cf = {1: '/tmp/confirm-%s.txt', 2: '/tmp/confirm2-%s.txt', 3: '/tmp/confirm3-%s.txt', 4: '/tmp/confirm4-%s.txt', 5: '/tmp/confirm5-%s.txt'}[rnd] % prop
+    cf = {1: '/tmp/confirm-%s.txt', 2: '/tmp/confirm2-%s.txt', 3: '/tmp/confirm3-%s.txt', 4: '/tmp/confirm4-%s.txt', 5: '/tmp/confirm5-%s.txt', 6: '/tmp/confirm6-%s.txt'}[rnd] % prop
     if os.path.exists(cf):
         for l in open(cf):
             if l.startswith('CONFIRM %s/%s ' % (prop, v)): conf = l.strip()
@@ -26,7 +26,7 @@ for d in sorted(glob.glob('/tmp/wt-C*/SEEDED/*') + glob.glob('/tmp/wt2-C*/SEEDED
     meta['breaks_property'] = prop
     meta['origin'] = 'fresh sub-agent given only the property text and a scratch worktree of /repo (nothing from /verif)'
     meta['confirmed_by_me'] = {
-        'where': 'scratch worktree /tmp/%s-%s (outside /repo and /verif), removed afterwards' % ({1: 'wt', 2: 'wt2', 3: 'wt3', 4: 'wt4', 5: 'wt5'}[rnd], prop),
+        'where': 'scratch worktree /tmp/%s-%s (outside /repo and /verif), removed afterwards' % ({1: 'wt', 2: 'wt2', 3: 'wt3', 4: 'wt4', 5: 'wt5', 6: 'wt6'}[rnd], prop),
         'ran': ['cargo test --offline --test seeded_demo   (clean tree: passes)', 'git apply patch.diff', 'cargo test --offline --lib   (167 passed)', 'cargo test --offline --doc   (9 passed)', 'cargo test --offline --test seeded_demo   (fails)', 'git checkout -- src'],
         'result': conf.split('|', 1)[1].strip() if '|' in conf else conf,
     }
